@@ -186,6 +186,18 @@ func c16Node(variant int, doc string, path []interface{}) (ast.Node, error) {
 	case 5:
 		// the lenient search (no ValidateJSON): what it locates may turn out to be malformed when it is parsed
 		return sonic.GetWithOptions([]byte(doc), ast.SearchOptions{ConcurrentRead: true}, path...)
+	case 6, 7:
+		// a plain search result that was already read a little (single-threaded) before Load()/LoadAll():
+		// some children are parsed, some lazy, some raw at the moment of the call
+		n, err := sonic.GetFromString(doc, path...)
+		if err != nil {
+			return n, err
+		}
+		c16Touch(&n, 0)
+		if variant == 6 {
+			return n, n.Load()
+		}
+		return n, n.LoadAll()
 	default:
 		n, err := sonic.GetFromString(doc, path...)
 		if err != nil {
@@ -195,7 +207,7 @@ func c16Node(variant int, doc string, path []interface{}) (ast.Node, error) {
 	}
 }
 
-var c16Variants = []string{"NewRawConcurrentRead", "Searcher{ConcurrentRead}", "GetWithOptions(ConcurrentRead)", "LoadAll() returned", "Load() returned", "GetWithOptions(ConcurrentRead) value malformed at its first level"}
+var c16Variants = []string{"NewRawConcurrentRead", "Searcher{ConcurrentRead}", "GetWithOptions(ConcurrentRead)", "LoadAll() returned", "Load() returned", "GetWithOptions(ConcurrentRead) value malformed at its first level", "partly read, then Load() returned", "partly read, then LoadAll() returned"}
 
 func c16Doc(r *gen.Rng) string {
 	o := gen.DefaultDoc
@@ -239,6 +251,27 @@ func c16Doc(r *gen.Rng) string {
 
 var c16Deadlocked bool
 
+// c16Touch reads a few children of a node the way a single-threaded user would before
+// sharing it: first, middle and last member, one level further down for the first.
+func c16Touch(n *ast.Node, depth int) {
+	if depth > 2 {
+		return
+	}
+	switch n.TypeSafe() {
+	case ast.V_OBJECT:
+		if p := n.IndexPair(0); p != nil {
+			c16Touch(&p.Value, depth+1)
+		}
+		n.Get("key3")
+		n.Get("b")
+	case ast.V_ARRAY:
+		if c := n.Index(0); c != nil {
+			c16Touch(c, depth+1)
+		}
+		n.Index(2)
+	}
+}
+
 func c16Case(c *Ctx, i int, r *gen.Rng) {
 	doc := c16Doc(r)
 	tree, ok := ref.Parse(doc)
@@ -246,7 +279,7 @@ func c16Case(c *Ctx, i int, r *gen.Rng) {
 		c.Note(i, "inconclusive: generator produced an invalid document", q(doc))
 		return
 	}
-	variant := r.Intn(5)
+	variant := []int{0, 1, 2, 3, 4, 6, 7}[r.Intn(7)]
 	var base []interface{}
 	if r.Chance(1, 3) {
 		base = randomPath(r, tree)
